@@ -4,7 +4,7 @@ import ast
 from ..core.model import AnchorError
 from ..core.cfg import walk_shallow, cfg_of
 from ..core.facts import U, atoms_of
-from ..engine import fn_name, kwarg, local_defs, returns_of, stmts_in, vars_assigned_from, var_from_call
+from ..engine import argn, fn_name, kwarg, local_defs, returns_of, stmts_in, vars_assigned_from, var_from_call
 from . import c02
 
 EXPLANATION = (
@@ -62,9 +62,9 @@ def s2(ctx, rep):
     pushes = [(n.id, x) for n in cfg.nodes for x in cfg.node_walk(n.id) if isinstance(x, ast.Call) and fn_name(x) == "heappush"]
     ok = len(pushes) == 1
     if ok:
-        item = pushes[0][1].args[1]
+        item = argn(pushes[0][1], 1)
         ok = isinstance(item, ast.Tuple) and len(item.elts) == 3 and U(item.elts[0]) == "event_time" and U(item.elts[1]) == "self.events_added" \
-            and U(item.elts[2]) == "event" and U(pushes[0][1].args[0]) == "self.event_heap"
+            and U(item.elts[2]) == "event" and U(argn(pushes[0][1], 0)) == "self.event_heap"
     rep.put(ok, "S2", "agreement", "SimulatorState.push: heap entries are (time, insertion counter, event)", f, pushes[0][1] if pushes else None, "",
             "heap entries are not keyed by (time, insertion counter): events with equal time stamps are not processed first-in-first-out")
     inc = [n.id for n in cfg.nodes if n.kind == "stmt" and isinstance(n.ast, ast.AugAssign) and U(n.ast.target) == "self.events_added"
@@ -88,12 +88,12 @@ def s2(ctx, rep):
             if isinstance(v, (ast.List,)) and not v.elts:
                 continue            # the empty list is a heap
             hp_attr = {x.id for x in cm.nodes for y in cm.node_walk(x.id)
-                       if isinstance(y, ast.Call) and fn_name(y) == "heapify" and y.args and U(y.args[0]) == "self.event_heap"}
+                       if isinstance(y, ast.Call) and fn_name(y) == "heapify" and y.args and U(argn(y, 0)) == "self.event_heap"}
             after = bool(hp_attr) and cm.path([s_ for s_, l in cm.succ[nd.id]], cm.exit, deleted=hp_attr, skip_labels=("exc",)) is None
             before = False
             if isinstance(v, ast.Name):
                 hp_name = {x.id for x in cm.nodes for y in cm.node_walk(x.id)
-                           if isinstance(y, ast.Call) and fn_name(y) == "heapify" and y.args and U(y.args[0]) == v.id}
+                           if isinstance(y, ast.Call) and fn_name(y) == "heapify" and y.args and U(argn(y, 0)) == v.id}
                 before = bool(hp_name) and cm.path(cm.entry, nd.id, deleted=hp_name) is None
             rep.put(after or before, "S2", "must_follow", f"SimulatorState.{m.name}: a rebuilt event list is heapified before it is used as the heap", m, nd.ast,
                     "heapq.heapify applied to the list stored in self.event_heap",
@@ -135,11 +135,22 @@ def s3(ctx, rep):
     q = [x for x in walk_shallow(f.node) if isinstance(x, ast.Call) and fn_name(x) == "config_objectives"]
     ok = len(q) == 1 and U(kwarg(q[0], "seed", 1)) == sv
     rep.put(ok, "S3", "taint", "_BlackboxSimulatorBackend: the table is queried with exactly that seed", f, q[0] if q else None, "")
-    # fixed backend seed wins
+    # fixed backend seed wins: the variable is set from self._seed, and the per-trial lookup is reached only when no backend
+    # seed is given - tested on self._seed itself, or on the variable right after it was loaded from self._seed
     fx = [n for n in cfg.nodes if n.kind == "stmt" and isinstance(n.ast, ast.Assign) and U(n.ast.targets[0]) == sv and U(n.ast.value) == "self._seed"]
-    ok = len(fx) == 1 and ("is", "self._seed", "None", False) in _dom_atoms(cfg, fx[0].id) and \
-        ("is", "self._seed", "None", False) not in at
-    rep.put(ok, "S3", "guarded_by", "_BlackboxSimulatorBackend: a fixed backend seed is used for every trial", f, None, "")
+    gets = [n for n in cfg.nodes if n.kind == "stmt" and isinstance(n.ast, ast.Assign) and U(n.ast.targets[0]) == sv and attr in U(n.ast.value)]
+    ok = len(fx) == 1 and len(gets) >= 1
+    if ok:
+        afx = _dom_atoms(cfg, fx[0].id)
+        taken = ("is", "self._seed", "None", False) in afx or not any(a[0] == "is" and "self._seed" in (a[1], a[2]) for a in afx)
+        for g_ in gets:
+            ag = _dom_atoms(cfg, g_.id)
+            direct = ("is", "self._seed", "None", True) in ag
+            via = ("is", sv, "None", True) in ag and not any(sv in a[1:3] or "self._seed" in a[1:3] for a in afx) and cfg.path([cfg.entry], g_.id, deleted={fx[0].id}) is None and \
+                len([d for d in ds if U(d) not in ("None",)]) <= 3
+            ok = ok and taken and (direct or via)
+    rep.put(ok, "S3", "guarded_by", "_BlackboxSimulatorBackend: a fixed backend seed is used for every trial", f, None, "",
+            "the per-trial seed lookup is not confined to `self._seed is None`: with a fixed backend seed the trials are served from other seeds")
     ws = [(g, n, k) for g, n, k in ctx.writers(attr) if g.name not in ("__init__", "__setstate__")]
     rep.put(len(ws) == 1, "S3", "who_may_write", f"{attr} has a single store site", f, None, f"{len(ws)}")
 
@@ -155,17 +166,17 @@ def s4(ctx, rep):
     ok = len(app) == 1
     if ok:
         from ..engine import deref
-        v = app[0].args[0]
+        v = argn(app[0], 0)
         ds = [d for d in local_defs(f, U(v)) if not isinstance(d, tuple)] if isinstance(v, ast.Name) else [v]
         ok = len(ds) == 1 and isinstance(ds[0], ast.Call) and fn_name(ds[0]) == "dict" and ds[0].args
-        z = deref(f, ds[0].args[0]) if ok else None
-        ok = ok and isinstance(z, ast.Call) and fn_name(z) == "zip" and "objectives_names" in U(z.args[0]) and ov is not None \
-            and isinstance(deref(f, z.args[1]), ast.Subscript) and U(deref(f, z.args[1]).value) == ov
+        z = deref(f, argn(ds[0], 0)) if ok else None
+        ok = ok and isinstance(z, ast.Call) and fn_name(z) == "zip" and "objectives_names" in U(argn(z, 0)) and ov is not None \
+            and isinstance(deref(f, argn(z, 1)), ast.Subscript) and U(deref(f, argn(z, 1)).value) == ov
     rep.put(ok, "S4", "taint", "metrics_for_configuration: each level is a fresh dict(zip(names, table row))", f, None, "",
             "reported results are not fresh copies of the table row: later in-place corrections would alter the table")
     idx = None
     for x in walk_shallow(f.node):
-        if isinstance(x, ast.For) and isinstance(x.iter, ast.Call) and fn_name(x.iter) == "enumerate" and U(x.iter.args[0]) == fv[0]:
+        if isinstance(x, ast.For) and isinstance(x.iter, ast.Call) and fn_name(x.iter) == "enumerate" and U(argn(x.iter, 0)) == fv[0]:
             idx = U(x.target.elts[0])
             val = U(x.target.elts[1])
             ok2 = f"{ov}[{idx}]" in U(x) and any(isinstance(s, ast.Assign) and U(s.targets[0]).endswith("[resource_attr]") and U(s.value) == val
@@ -238,7 +249,7 @@ def s6(ctx, rep):
     a = b.methods["_advance_by_outside_time"]
     from ..engine import deref
     adv = [x for x in walk_shallow(a.node) if isinstance(x, ast.Call) and fn_name(x) == "advance" and x.args]
-    ok = len(adv) == 1 and U(deref(a, adv[0].args[0])) == "self._time_keeper.real_time_since_last_recent_exit()"
+    ok = len(adv) == 1 and U(deref(a, argn(adv[0], 0))) == "self._time_keeper.real_time_since_last_recent_exit()"
     rep.put(ok, "S6", "agreement", "SimulatorBackend._advance_by_outside_time charges the real time since the last exit mark", a, None, "")
 
 
@@ -321,7 +332,7 @@ def s7(ctx, rep):
     f = P.method("SimulatorBackend", "_process_start_event")
     push = [x for x in walk_shallow(f.node) if isinstance(x, ast.Call) and fn_name(x) == "push" and x.args
             and any(isinstance(y, ast.Call) and fn_name(y) == "CompleteEvent" for y in ast.walk(x)) or
-            (isinstance(x, ast.Call) and fn_name(x) == "push" and x.args and flows_into(f, x.args[0], lambda y: isinstance(y, ast.Call) and fn_name(y) == "CompleteEvent"))]
+            (isinstance(x, ast.Call) and fn_name(x) == "push" and x.args and flows_into(f, argn(x, 0), lambda y: isinstance(y, ast.Call) and fn_name(y) == "CompleteEvent"))]
     if len(push) != 1:
         raise AnchorError("_process_start_event: push(CompleteEvent) not found")
     et = kwarg(push[0], "event_time", 1)
